@@ -181,6 +181,37 @@ def anova_order1(shape, how, ykind, seed, r, aseed):
     return PASS
 
 
+@clause('C13.ANOVA.repeated_export', funcs=('anova.ANOVA', 'anova.ANOVA.cores', 'anova.ANOVA.cores_1', 'anova.ANOVA.cores_2'))
+def anova_repeated_export(shape, how, ykind, seed, order, aseed):
+    """History: one fitted ANOVA object exports the SAME model every time `cores()` is called (different ranks in turn),
+    evaluating it with `A(I)` in between; the fitted terms (f0, f1 tables) do not drift."""
+    I, y, dom, P = _data(shape, how, ykind, seed)
+    A = teneva.ANOVA(I, y, order, aseed)
+    f0, f1, f2 = _own_model(I, y, dom, order)
+    T = _model_dense(shape, f0, f1, f2 if order == 2 else {})
+    d = len(shape)
+    need = 2 + sum(min(shape[i], shape[k]) for i in range(d - 1) for k in range(i + 1, d))
+    sc = _scale(y, f0, f1, f2 if order == 2 else None) * (1 + d)
+    tol_rel = 1e-6 if order == 2 else None
+    for call, r in enumerate(((2, 4, 3) if order == 1 else (need, need + 2, need)), start=1):
+        Y = A.cores(r, 0.)
+        msg = gen.wf(Y, shape)
+        if msg:
+            return FAIL(f'call {call}: not well-formed: {msg}')
+        got = gen.dense(Y)
+        if order == 1:
+            ok = gen.close(got, T, sc)
+        else:
+            ok = np.linalg.norm(got - T) <= tol_rel * max(np.linalg.norm(T), sc) + 64 * np.finfo(float).eps * sc * T.size
+        if not ok:
+            return FAIL(f'export #{call} (r={r}) of the same ANOVA object differs from the fitted model: max dev '
+                        f'{np.abs(got - T).max():.3e} (f0 = {f0:.6g})')
+        if abs(A.f0 - f0) > 64 * np.finfo(float).eps * max(1.0, abs(f0), np.abs(y).max()):
+            return FAIL(f'constant term drifted after export #{call}: {A.f0} vs {f0}')
+        A(I[:1])
+    return PASS if np.abs(y).max() > 0 else TRIVIAL('zero data')
+
+
 def _pattern(shape, f0, f1, r):
     """Exact cores of f0 + sum f1 in the rank-r pattern of cores_1 and the mask of the remaining (noise) slots."""
     d = len(shape)
@@ -398,6 +429,7 @@ def cases(tier, seed):
                     base = dict(shape=shape, how=how, ykind=yk, seed=sd)
                     for order in (1, 2):
                         yield 'C13.model.terms', dict(base, order=order)
+                        yield 'C13.ANOVA.repeated_export', dict(base, order=order, aseed=j % 3)
                     for r in ((2, 3, 5) if big else (2, 3)):
                         yield 'C13.anova.order1', dict(base, r=r, aseed=j % 3)
                     for (r, noise, rel) in ((2, 1e-10, False), (3, 1e-3, False), (4, 0.5, False), (3, 1e-2, True)):
